@@ -231,6 +231,25 @@ func serverScenarios() []*spxScenario {
 			}
 			return x
 		}},
+		{Name: "S16-cancelled-stream-keeps-its-slot", Role: "server", Build: func() *spxInst {
+			h := c19Server(harness.ServerOpts{MaxConcurrentStreams: 1})
+			x := &spxInst{s: h.S, srv: h}
+			x.start = func() {
+				x.startEnv(
+					&harness.EnvThread{Name: "peer", Steps: []harness.EnvStep{
+						{Kind: "inject", Bytes: frames(c19Req(h, 3, true))},
+						{Kind: "inject", Bytes: frames(peer.RstStream(3, 8))},
+						{Kind: "inject", Bytes: frames(c19Req(h, 5, true))},
+						{Kind: "inject", Bytes: frames(c19Req(h, 7, true))},
+					}},
+					&harness.EnvThread{Name: "handlers", Steps: []harness.EnvStep{
+						{Kind: "finish", Call: 1, Resp: harness.Resp{Status: 200, Headers: c19RespHdr, Body: []byte("r1")}},
+						{Kind: "finish", Call: 2, Resp: harness.Resp{Status: 200, Headers: c19RespHdr, Body: []byte("r2")}},
+					}},
+				)
+			}
+			return x
+		}},
 		{Name: "S13-idle-timeout-vs-new-request", Role: "server", Build: func() *spxInst {
 			h := c19Server(harness.ServerOpts{IdleTimeout: 3 * time.Second})
 			x := &spxInst{s: h.S, srv: h}
